@@ -522,3 +522,11 @@ func (p *rawPeer) closeReason() string {
 	defer p.mu.Unlock()
 	return p.closed
 }
+
+// onAdmission registers a socket's handlers from a namespace middleware of "/": they are in place before the CONNECT reply goes out.
+// (Handlers registered in a connection handler race with the first packets of the client: the connection handler runs on a goroutine
+// of its own after the reply was sent, and an event that arrives before the registration is dropped - finding D40. Rigs whose clients
+// emit at the instant of connection register here, or emit a few virtual milliseconds later.)
+func onAdmission(srv *sio.Server, f func(s sio.ServerSocket)) {
+	srv.Use(func(s sio.ServerSocket, hs *sio.Handshake) any { f(s); return nil })
+}
